@@ -154,6 +154,15 @@ class SolverStub:
 _DECL = re.compile(r"\(declare-fun (f_evm_(bvmul|bvudiv|bvurem|bvsdiv|bvsrem)_(\d+)) \(\(_ BitVec (\d+)\) \(_ BitVec (\d+)\)\) \(_ BitVec (\d+)\)\)")
 
 
+def truncated_core(stdout: str) -> str | None:
+    """what is left of an `unsat` + unsat-core answer if the solver dies while printing the core: the first name complete, the
+    second one cut, no closing parenthesis.  None if the core has fewer than two names."""
+    m = re.search(r"unsat\s*(\(\s*error[^)]*\)\s*)?\(\s*(<[0-9]+>)\s*(<[0-9]+>)", stdout)
+    if not m:
+        return None
+    return stdout[: m.end(2)] + " " + m.group(3)[: max(2, len(m.group(3)) // 2)]
+
+
 def reference_refine(text: str) -> str:
     """independent statement of what refinement must do: every mul/div/rem abstraction becomes its exact EVM
     operation (division and remainder by zero are zero)"""
@@ -332,6 +341,7 @@ class RunSimResult:
         self.stub: SolverStub | None = None
         self.outcome = None
         self.observed: dict = {}
+        self.alive_procs: list = []  # simulated processes still alive when the simulation ended: (pid, cmd key, would exit at)
 
 
 class OrderedWeakSet:
@@ -430,6 +440,9 @@ def run_under_sim(ch, main_fn, *, solver="yices", plan=None, fault_rate=0.0, kin
                     out.exception = e
             sim.run(main)
         out.warnings = lc.records
+        with contextlib.suppress(Exception):
+            out.alive_procs = [(p.pid, str(p.cmd[-1]).rsplit("/", 1)[-1], p.exit_at) for p in shims.PROCS.procs.values()
+                               if p.alive(sim.now) and p.exit_at > sim.now + 1.0]
     finally:
         fs.remove()
         cmon.remove()
